@@ -22,7 +22,7 @@ EXPLANATION = (
     "a worse individual: the weights LinearRank / ExponentialRank hand to the sampler are non-increasing in the rank "
     "for every ranking of 1..4 individuals, and proportional_weights over a grid of objective vectors (positive, "
     "negative, mixed, tied, infinite) is non-increasing in the objective, at least `offset`, and None for infinite "
-    "values. NOT decided: sampling frequencies; the DE selections' index arithmetic; panics on degenerate parameters "
+    "values. (R7) reverse_rank is the dense ranking (1 = lowest, ties share a rank) for every weak ordering of up to 4 objective values. NOT decided: sampling frequencies; the DE selections' index arithmetic; panics on degenerate parameters "
     "(tournament size 0, empty populations for samplers) that the operators do not document as errors.")
 ASSUMPTIONS = ["rand's choose / choose_multiple return members of the slice (choose_multiple: distinct ones)"]
 
